@@ -19,13 +19,31 @@ NAME = "dep"
 PROPS = ("C18",)
 
 EXC_KINDS = ["ValueError:m", "KeyError:k", "IndexError:", "AssertionError:", "UnicodeError:u", "RecursionError:r",
-             "LatexWalkerParseError", "TypeError:t", "ZeroDivisionError:", "Exception:", "RuntimeError:"]
+             "LatexWalkerParseError", "TypeError:t", "ZeroDivisionError:", "Exception:", "RuntimeError:",
+             # append only below (replay files refer to kinds by name): unusual argument shapes
+             "KeyError#int", "OSError#errno", "RuntimeError#nested", "UnicodeDecodeError#5", "Exception#bytes", "Exception#tuple",
+             "LookupError#zero", "StopIteration:", "Exception#none", "ValueError#two"]
 
 
 def make_exc(kind):
     if kind == "LatexWalkerParseError":
         from pylatexenc.latexwalker import LatexWalkerParseError
         return LatexWalkerParseError("simulated parse error", s="x", pos=0)
+    special = {
+        "KeyError#int": lambda: KeyError(8364),
+        "OSError#errno": lambda: OSError(5, "simulated I/O error inside the converter"),
+        "RuntimeError#nested": lambda: RuntimeError(ValueError("inner")),
+        "UnicodeDecodeError#5": lambda: UnicodeDecodeError("utf-8", b"\xff", 0, 1, "invalid start byte"),
+        "Exception#bytes": lambda: Exception(b"bytes message"),
+        "Exception#tuple": lambda: Exception(("a", "tuple")),
+        "LookupError#zero": lambda: LookupError(0),
+        "Exception#none": lambda: Exception(None),
+        "ValueError#two": lambda: ValueError("first", 2),
+    }
+    if kind in special:
+        return special[kind]()
+    if kind == "StopIteration:":
+        return StopIteration()
     name, _, msg = kind.partition(":")
     cls = {"ValueError": ValueError, "KeyError": KeyError, "IndexError": IndexError, "AssertionError": AssertionError,
            "UnicodeError": UnicodeError, "RecursionError": RecursionError, "TypeError": TypeError,
@@ -89,9 +107,14 @@ def generate(rng, tier, prop):
     else:
         ops.append({"op": "build", "direction": direction, "inner": rng.choice(["marker", "marker", "real"]), "options": {},
                     "inplace": rng.random() < 0.5})
-        nf = rng.choice([0, 1, 1, 1, 2, 3])
-        span = rng.choice([4, 12, 40])
-        ops.append({"op": "transform", "fault_calls": sorted({rng.randrange(span) for _ in range(nf)}), "exc": rng.choice(EXC_KINDS)})
+        # the same long-lived instance is used for several libraries (the first is re-built from the same text, so the
+        # same values come back): what an earlier call left behind in the instance must not show in a later one
+        for t in range(rng.choice([1, 1, 2, 3])):
+            nf = rng.choice([0, 1, 1, 1, 2, 3]) if t == 0 else rng.choice([0, 0, 1])
+            span = rng.choice([4, 12, 40])
+            if t > 0:
+                ops.append({"op": "library", "extra_fields": extra})
+            ops.append({"op": "transform", "fault_calls": sorted({rng.randrange(span) for _ in range(nf)}), "exc": rng.choice(EXC_KINDS)})
     return {"config": cfg, "ops": ops}
 
 
@@ -345,6 +368,9 @@ def execute(run, props):
             if not build["inplace"] and fingerprint(lib) != fingerprint(orig):
                 V("scope", "input-mutated-in-copy-mode", step, "allow_inplace_modification=False but the input library changed")
                 return res
+            ntrans = sum(1 for o in run["ops"][:step] if o["op"] == "transform")
+            if ntrans:
+                res.probes["instance_reused_for_another_library"] += 1
             for s in sites:
                 res.probes["fault_in_" + s] += 1
             if not failed_inputs and op["fault_calls"]:
